@@ -1,7 +1,7 @@
 (* C04 — creation renders the tree WXML semantics define. Theorems ABOUT THE SPECIFICATION
    (Model/Render.v); the tie between the specification and the generated code is the
    correspondence run under node (there is no proof about the generator's protocol output). *)
-From GE Require Import Model.Str Model.Lit Model.Expr Model.Tmpl Model.Val Model.Render Proofs.RenderProofs.
+From GE Require Import Model.Str Model.Lit Model.Expr Model.Tmpl Model.Val Model.Render Proofs.RenderProofs Model.AttrRoute Proofs.AttrRouteProofs.
 
 Theorem C04_render_if_first_truthy : forall subs globals slot_values call ev pre c body post k v,
   all_falsy ev pre -> eval_value ev c = Some v -> truthy v = true ->
@@ -32,3 +32,48 @@ Theorem C04_render_attrs_one_per_attribute : forall ev l r,
   map (fun x => match x with RAttr k _ _ => k end) r = map (fun a => chan_key (va_chan a)) (filter delivered l).
 Proof. exact render_attrs_one_per_attribute. Qed.
 Print Assumptions C04_render_attrs_one_per_attribute.
+
+(* attribute families: channel and name normalisation, for every name (Model/AttrRoute.v) *)
+Theorem C04_route_camel_families : forall n, no_colon n -> n <> [] ->
+  route KView (lit "model:" ++ n) = Some (lit "r!:" ++ dash_to_camel n) /\
+  route KView (lit "change:" ++ n) = Some (lit "p:" ++ dash_to_camel n) /\
+  route KView (lit "worklet:" ++ n) = Some (lit "wl:" ++ dash_to_camel n) /\
+  (forall k, route k (lit "slot:" ++ n) = Some (lit "sref:" ++ dash_to_camel n)).
+Proof.
+  intros n Hn Hne. repeat split.
+  - now apply route_model. - now apply route_change. - now apply route_worklet.
+  - intros k. now apply route_slot_ref.
+Qed.
+Print Assumptions C04_route_camel_families.
+
+Theorem C04_route_verbatim_families : forall n, no_colon n -> n <> [] ->
+  route KView (lit "generic:" ++ n) = Some (lit "g:" ++ n) /\
+  route KView (lit "extra-attr:" ++ n) = Some (lit "a:" ++ n) /\
+  (forall k, route k (lit "data:" ++ n) = Some (lit "d:" ++ n)) /\
+  (forall k, route k (lit "mark:" ++ n) = Some (lit "m:" ++ n)).
+Proof.
+  intros n Hn Hne. repeat split.
+  - now apply route_generic. - now apply route_extra_attr.
+  - intros k. now apply route_data_colon. - intros k. now apply route_mark.
+Qed.
+Print Assumptions C04_route_verbatim_families.
+
+Theorem C04_route_events : forall k n, no_colon n -> n <> [] ->
+  route k (lit "bind:" ++ n) = Some (ev_key n false false false) /\
+  route k (lit "mut-bind:" ++ n) = Some (ev_key n false true false) /\
+  route k (lit "catch:" ++ n) = Some (ev_key n true false false) /\
+  route k (lit "capture-bind:" ++ n) = Some (ev_key n false false true) /\
+  route k (lit "capture-mut-bind:" ++ n) = Some (ev_key n false true true) /\
+  route k (lit "capture-catch:" ++ n) = Some (ev_key n true false true).
+Proof. exact route_events. Qed.
+Print Assumptions C04_route_events.
+
+Theorem C04_route_data_hyphen : forall k n, no_colon n ->
+  route k (lit "data-" ++ n) = Some (lit "d:" ++ dash_to_camel (lower_str n)).
+Proof. exact route_data_hyphen. Qed.
+Print Assumptions C04_route_data_hyphen.
+
+Theorem C04_route_plain : forall n, no_colon n -> n <> [] -> reserved_plain n = false ->
+  route KView n = Some (lit "r:" ++ n) /\ route KSlot n = Some (lit "l:" ++ dash_to_camel n).
+Proof. exact route_plain. Qed.
+Print Assumptions C04_route_plain.
